@@ -398,6 +398,7 @@ type LoopContract struct {
 	Invariants []Clause
 	Decreases  *Clause
 	Modifies   []Clause
+	ModAny     bool // "modifies *": the loop may change any memory (abstracted calls in the body)
 	Unroll     bool
 }
 
@@ -460,7 +461,14 @@ type GlobalInv struct {
 	C   Clause
 }
 
+// MapVal: an assumed invariant of the values stored in a package-level map ("v" names the value).
+type MapVal struct {
+	Pkg, Name string
+	C         Clause
+}
+
 type ContractFile struct {
+	MapVals []MapVal
 	Globals []GlobalInv
 	Pkg    string
 	Funcs  []*FuncContract
@@ -469,7 +477,7 @@ type ContractFile struct {
 	Lemmas []*Lemma
 }
 
-var clauseKW = map[string]bool{"global": true, "func": true, "spec": true, "uf": true, "lemma": true, "axiom": true,
+var clauseKW = map[string]bool{"mapval": true, "global": true, "func": true, "spec": true, "uf": true, "lemma": true, "axiom": true,
 	"props": true, "requires": true, "ensures": true, "panics": true, "modifies": true, "loop": true,
 	"inline": true, "assumed": true, "pure": true, "nooverflow": true, "maypanic": true, "nopaniccheck": true,
 	"split": true, "excuse": true, "makebound": true, "recspec": true, "induct": true, "datainv": true}
@@ -586,6 +594,17 @@ func parseContractFile(path, pkg string) (*ContractFile, error) {
 			curLemma = &Lemma{Name: strings.TrimSpace(rest[:k]), Pkg: pkg, E: e, Src: strings.TrimSpace(rest[k+1:]), Pos: pos, Axiom: kw == "axiom"}
 			cf.Lemmas = append(cf.Lemmas, curLemma)
 			cur = nil
+		case "mapval":
+			k := strings.Index(rest, ":")
+			if k < 0 {
+				return nil, fmt.Errorf("%s: mapval needs `Name: predicate over v`", pos)
+			}
+			c, err := mkClause(strings.TrimSpace(rest[k+1:]), ll.line)
+			if err != nil {
+				return nil, err
+			}
+			cf.MapVals = append(cf.MapVals, MapVal{Pkg: pkg, Name: strings.TrimSpace(rest[:k]), C: c})
+			cur, curLemma = nil, nil
 		case "global":
 			c, err := mkClause(rest, ll.line)
 			if err != nil {
@@ -714,6 +733,10 @@ func parseContractFile(path, pkg string) (*ContractFile, error) {
 					}
 					lc.Decreases = &c
 				case "modifies":
+					if body == "*" {
+						lc.ModAny = true
+						break
+					}
 					for _, part := range splitTop(body) {
 						c, err := mkClause(part, ll.line)
 						if err != nil {
